@@ -50,7 +50,15 @@ def make_exc(kind, n):
     # canonicalised to `Other` (the model's Exc.other)
     return {0: MachineError('scripted'), 1: AttributeError('scripted'), 2: ValueError('scripted'),
             7: KeyError('scripted'), 8: IndexError('scripted'), 9: OSError('scripted'),
-            10: LookupError('scripted')}.get(kind, RuntimeError('scripted'))
+            10: LookupError('scripted'), 11: StopIteration('scripted'),
+            12: StopAsyncIteration('scripted')}.get(kind, RuntimeError('scripted'))
+
+
+def foreign_other(run, e):
+    """an exception of a type the library has no business creating (canonical kind `Other`) that reaches the caller
+    must be the very object a scripted callback raised — not a replacement made on the way (e.g. a StopIteration turned
+    into RuntimeError by a generator frame)"""
+    return canon_exc(e)[0] == 6 and not any(e is x for x in getattr(run, 'scripted', ()))
 
 
 # ---------------------------------------------------------------------------------------------
@@ -422,6 +430,7 @@ class FlatRun(object):
             self.items.append(('done', cid, 0, int(bool(out[1])), 0))
             return out[1]
         exc = make_exc(out[1], out[2])
+        self.__dict__.setdefault('scripted', []).append(exc)
         self.items.append(('done', cid, 1) + canon_exc(exc))
         raise exc
 
@@ -438,6 +447,7 @@ class FlatRun(object):
             if isinstance(e, common.MachineryError):
                 raise
             self.items.append(('raised', tag) + canon_exc(e))
+            self.__dict__.setdefault('raised_objs', {})[tag] = e
             raise
         self.items.append(('ret', tag, int(bool(r))))
         return r
